@@ -790,6 +790,10 @@ namespace {
          auto* f = dynamic_cast<const ipr::Forall*>(&T(a(2))); if (f == nullptr) throw BadOp{ };
          auto* d = IR(a(0)).declare_primary_template(N(a(1)), *f); add_decl("Template", d).tmpl = d; L.word(last(1));
       }
+      else if (op == "template2") {
+         auto* f = dynamic_cast<const ipr::Forall*>(&T(a(2))); if (f == nullptr) throw BadOp{ };
+         auto* d = IR(a(0)).declare_secondary_template(N(a(1)), *f); add_decl("Template", d).tmpl = d; L.word(last(1));
+      }
       else if (op == "sethome") { auto& e = E(a(0)); if (not e.set_home) throw BadOp{ }; e.set_home(a(1) == "-" ? nullptr : &R(a(1))); L.word("ok"); }
       else if (op == "setinit") { auto& e = E(a(0)); if (not e.set_init) throw BadOp{ }; e.set_init(a(1) == "-" ? nullptr : &X(a(1))); L.word("ok"); }
       else if (op == "settmap") { auto& t = E(a(0)); auto& m = E(a(1)); if (t.tmpl == nullptr or m.mapping == nullptr) throw BadOp{ }; t.tmpl->init = m.mapping; L.word("ok"); }
